@@ -37,11 +37,15 @@ def tasks(tier, seed):
             for istart in range(L):
                 ts.append(dict(name=f'trees_L{L}_n{ntrees}_s{istart}', kind='trees', L=L, ntrees=ntrees, istart0=istart,
                                maxh=min(3, L), cut=5))
-    if q:
-        # longer chains with small trees: identity padding strings of length >= 3 only exist for L >= 4
-        for L in (4, 5):
-            for istart in range(L):
-                ts.append(dict(name=f'trees_L{L}_n1_s{istart}_small', kind='trees', L=L, ntrees=1, istart0=istart, maxh=2, edges=2, cut=5))
+    # longer chains with small trees: identity padding strings of length >= 3 only exist for L >= 4
+    for L in (4, 5) if q else (4, 5, 6):
+        for istart in range(L):
+            ts.append(dict(name=f'trees_L{L}_n1_s{istart}_small', kind='trees', L=L, ntrees=1, istart0=istart, maxh=2, edges=2, cut=5))
+    if not q:
+        for istart in range(5):
+            ts.append(dict(name=f'trees_L5_n1_s{istart}_e3', kind='trees', L=5, ntrees=1, istart0=istart, maxh=3, edges=3, cut=5))
+            ts.append(dict(name=f'trees_L5_n1_s{istart}_e4', kind='trees', L=5, ntrees=1, istart0=istart, maxh=4, edges=4, cut=5))
+            ts.append(dict(name=f'trees_L5_n2_s{istart}_e2', kind='trees', L=5, ntrees=2, istart0=istart, maxh=2, edges=2, cut=5))
     for L in (1, 2, 3) if q else (1, 2, 3, 4):
         ts.append(dict(name=f'autstruct_L{L}', kind='aut_struct', L=L, max_edges=4 if q else 5, cut=5))
         ts.append(dict(name=f'autsite_L{L}', kind='aut_site', L=L, cut=5))
